@@ -15,6 +15,7 @@ func init() {
 		Explanation: "Decided (structural necessary conditions, varutil.ReadArguments and argscope): R1 predicate abstraction over the joint state (isEscaped, isSeparated, emptiness of args): at every `args[len(args)-1]` the argument list is non-empty in every reachable abstract state (no index -1 panic, no gluing onto a previous argument's slot that does not exist); R2 no integer->string conversion of a value derived from an input byte unless branch facts bound it below 0x80 on every incoming edge (bytes are appended as bytes, not re-encoded as runes); R3 every Read on the input uses a buffer of constant length 1 and the reader is handed to nothing else (reading stops exactly at the command's newline); R4 every cycle of the CFG contains a Read whose failing edge leaves the loop (termination on finite input); R5 every tail slice x[:len(x)-k] is dominated by strings.HasSuffix(x, s) with len(s) >= k; R6 the escape flag covers exactly one byte: it is true on a back edge of the main loop only on the edge that has just consumed the backslash; R7 the heredoc body is trimmed only with a constant cutset of blanks (space, tab); R8 positional arguments reach the scope unchanged (no prefix trimming) and are numbered $0,$1,... in order, named ones are split at the first '='. " +
 			"Added in round 2: R3 also covers the callers — every reader handed to ReadArguments in the module is the caller's own reader, never a read-ahead wrapper (bufio.NewReader ...) created for the call, and varutil.SplitArguments returns nothing but ReadArguments' results (no second tokeniser); R8 also requires that no iteration of InjectArgs' argument loop goes round without a SetValue (a skipped argument shifts the positional numbering). " +
 			"Added in round 5: R5 also requires that the end of the heredoc body is decided by strings.HasSuffix(body, terminator) with the terminator built from the input (an incremental matcher that resets on mismatch misses a terminator preceded by a partial match); R9 between two Reads the byte just read was put into an argument / marker / body or was found equal to a constant on that path (path-sensitive over short-circuit conditions) — no input byte is dropped silently (e.g. by a comment option whose zero default is the NUL byte). " +
+			"Added in round 6: R1 also accepts the last-element index inside a function literal of the tokeniser when it is guarded by a non-emptiness test of the same list; R5 treats two String() readings of one strings.Builder with no write in between as the same string; R8 follows a positional-key helper with a precomputed table of the first keys. " +
 			"NOT decided: the tokenisation semantics as a whole (quotes, escapes, heredoc content), reversibility against a reference quoting function.",
 	})
 }
